@@ -12,6 +12,8 @@ Section P.
 Variable p : prog.
 Hypothesis wfp : wf_prog p.
 Notation memob := (memob p).
+Notation dead := (dead p).
+Notation GoneSame := (GoneSame p).
 Notation effb := (effb p).
 Notation sigb := (sigb p).
 Notation Inv := (Inv p).
@@ -37,12 +39,56 @@ Proof.
   exfalso. apply (H false 0%Z). unfold decl_of. apply nth_overflow; auto.
 Qed.
 
+Lemma track_dead_none c j s : obs_of c = None -> track_dead c j s = s.
+Proof. intros H. unfold track_dead. rewrite H. reflexivity. Qed.
+
+(* a read of a disposed signal / memo: 0, nothing recomputed, a dead source at most *)
+Lemma read_gone i m c s stk t :
+  (forall x t0 rest, Bool.eqb t0 (m && snd c) = true ->
+     rlvl p (S i) m (snd c) i ((i, x, t0) :: rest) = Some (x, rest)) ->
+  dead s i = true -> i < t -> CtxDep p c i -> Inv stk t s -> ctx_ok stk c -> TopOK c s ->
+  let s' := log_read c i 0 (m && snd c) true (if m then track_dead c i s else s) in
+  Inv stk t s' /\ TopOK c s' /\ PullRel (S i) stk (fst c) s s' /\
+  Growth c s s' (fun D => forall rest, rlvl p (S i) m (snd c) i (D ++ rest) = Some (0%Z, rest)).
+Proof.
+  intros Hlv Hg Hit Hcd I C T. cbv zeta.
+  assert (Hwr : forall w, fst c = Some w -> w < nlen s).
+  { intros w Hw. pose proof (who_on_stack stk c w C Hw) as Hin.
+    destruct (inv_frame _ _ _ _ I w Hin) as (_&_&_&_&F5&_). rewrite (wf_len p s (inv_wf _ _ _ _ I)). exact F5. }
+  destruct (m && snd c) eqn:Et.
+  - apply andb_prop in Et as [-> Hs].
+    destruct (obs_of_tracked c stk C Hs) as (o & Hw & Ho).
+    destruct (Inv_track_dead p stk t c o i s I C Ho T Hit (Hcd o Hw) Hg) as (I1 & Hp & P1 & Hsro & Hrl).
+    set (s1 := track_dead c i s) in *.
+    assert (Hg1 : dead s1 i = true) by (rewrite (PullRel_GoneSame p _ _ _ _ _ P1 i); exact Hg).
+    destruct (Inv_log_tracked p stk t c o i 0%Z s1 I1 C Hw) as (I2 & T2 & P2); auto.
+    + intros k x Hk Hko Hx. rewrite Hsro in Hx by auto. rewrite Hrl.
+      destruct (inv_frame _ _ _ _ I k Hk) as (_&_&F3&_). apply F3; auto.
+    + intros k Hk. destruct (inv_frame _ _ _ _ I k Hk) as (_&_&_&F4&_). exact F4.
+    + intros E. congruence.
+    + intros _ E. congruence.
+    + split; auto. split; auto. split.
+      { rewrite Hw. eapply PullRel_trans; eauto. }
+      intros w Hw0. exists [(i, 0%Z, true)]. split.
+      { rewrite log_read_rlog_who; auto; [rewrite Hrl; reflexivity|].
+        rewrite (pr_len _ _ _ _ _ _ P1). auto. }
+      intros rest. apply Hlv. reflexivity.
+  - assert (Hs1 : (if m then track_dead c i s else s) = s).
+    { destruct m; auto. cbn in Et. apply track_dead_none. apply obs_of_untracked; auto. }
+    rewrite Hs1.
+    destruct (Inv_log_untracked p stk t c i 0%Z true s I C T) as (I2 & T2 & P2).
+    split; auto. split; auto. split; auto.
+    intros w Hw0. exists [(i, 0%Z, false)]. split.
+    { apply log_read_rlog_who; auto. }
+    intros rest. apply Hlv. reflexivity.
+Qed.
+
 Lemma read_sig U R i tk iv : decl_of p i = DSig tk iv ->
   forall m c s stk t s' v, i < t -> CtxDep p c i -> Inv stk t s -> ctx_ok stk c -> TopOK c s ->
   node_read p U R m c i s = (s', v) ->
   Inv stk t s' /\ TopOK c s' /\ PullRel (S i) stk (fst c) s s' /\
-  (memob i = true -> st (getn s' i) = Clean /\ cache (getn s' i) = Some v) /\
-  (sigb i = true -> v = sval (getn s' i)) /\
+  (memob i = true -> dead s i = false -> st (getn s' i) = Clean /\ cache (getn s' i) = Some v) /\
+  (sigb i = true -> dead s i = false -> v = sval (getn s' i)) /\
   Growth c s s' (fun D => forall rest, rlvl p (S i) m (snd c) i (D ++ rest) = Some (v, rest)).
 Proof.
   intros Hd m c s stk t s' v Hit Hcd I C T Hr. unfold node_read in Hr. rewrite Hd in Hr.
@@ -50,25 +96,31 @@ Proof.
   assert (Hwr : forall w, fst c = Some w -> w < nlen s).
   { intros w Hw. pose proof (who_on_stack stk c w C Hw) as Hin.
     destruct (inv_frame _ _ _ _ I w Hin) as (_&_&_&_&F5&_). rewrite (wf_len p s (inv_wf _ _ _ _ I)). exact F5. }
-  assert (Hlv : forall t0 rest, Bool.eqb t0 (m && snd c) = true ->
-            rlvl p (S i) m (snd c) i ((i, sval (getn s i), t0) :: rest) = Some (sval (getn s i), rest)).
-  { intros t0 rest Ht. cbn [rlvl]. rewrite Nat.eqb_refl, Hd. rewrite ?Nat.eqb_refl. cbn [andb]. rewrite Ht. reflexivity. }
+  assert (Hlvx : forall x t0 rest, Bool.eqb t0 (m && snd c) = true ->
+            rlvl p (S i) m (snd c) i ((i, x, t0) :: rest) = Some (x, rest)).
+  { intros x t0 rest Ht. cbn [rlvl]. rewrite Nat.eqb_refl, Hd. rewrite ?Nat.eqb_refl. cbn [andb]. rewrite Ht. reflexivity. }
+  assert (Hlv := Hlvx (sval (getn s i))).
+  assert (Eg : dead s i = sgone (getn s i)) by (apply dead_src; unfold GraphInvariant.effb; rewrite Hd; reflexivity).
+  destruct (sgone (getn s i)) eqn:Eg0.
+  { inversion Hr; subst s' v. clear Hr.
+    destruct (read_gone i m c s stk t Hlvx Eg Hit Hcd I C T) as (I2 & T2 & P2 & G2).
+    split; auto. split; auto. split; auto. split; [intros _ E; congruence|]. split; [intros _ E; congruence|exact G2]. }
   destruct (m && snd c) eqn:Et.
   - (* tracked *)
     apply andb_prop in Et as [-> Hs].
     destruct (obs_of_tracked c stk C Hs) as (o & Hw & Ho).
-    destruct (Inv_track p stk t c o i s I C Ho T Hit (Hcd o Hw)) as (I1 & Hp & P1 & Hsro & Hrl & _).
+    destruct (Inv_track p stk t c o i s I C Ho T Hit (Hcd o Hw) Eg) as (I1 & Hp & P1 & Hsro & Hrl & _).
     set (s1 := track c i s) in *. inversion Hr; subst s' v. clear Hr.
     destruct (Inv_log_tracked p stk t c o i (sval (getn s1 i)) s1 I1 C Hw) as (I2 & T2 & P2); auto.
     + intros k x Hk Hko Hx. rewrite Hsro in Hx by auto. rewrite Hrl.
       destruct (inv_frame _ _ _ _ I k Hk) as (_&_&F3&_). apply F3; auto.
     + intros k Hk. destruct (inv_frame _ _ _ _ I k Hk) as (_&_&_&F4&_). exact F4.
-    + unfold GraphInvariant.cur. rewrite Hd. reflexivity.
+    + intros _. unfold GraphInvariant.cur. rewrite Hd. reflexivity.
     + intros Hm; congruence.
     + split; auto. split; auto. split.
       { rewrite Hw. eapply PullRel_trans; eauto. }
       split; [intros Hm; congruence|]. split.
-      { intros _. destruct (log_read_other_fields c i (sval (getn s1 i)) true true s1 i) as (->&_). reflexivity. }
+      { intros _ _. destruct (log_read_other_fields c i (sval (getn s1 i)) true true s1 i) as (->&_). reflexivity. }
       intros w Hw0. assert (Hsv : sval (getn s1 i) = sval (getn s i)) by (apply (pr_sval _ _ _ _ _ _ P1)).
       exists [(i, sval (getn s i), true)]. split.
       { rewrite Hsv. rewrite log_read_rlog_who; auto; [rewrite Hrl; reflexivity|].
@@ -81,7 +133,7 @@ Proof.
     destruct (Inv_log_untracked p stk t c i (sval (getn s i)) true s I C T) as (I2 & T2 & P2).
     split; auto. split; auto. split; auto.
     split; [intros Hm; congruence|]. split.
-    { intros _. destruct (log_read_other_fields c i (sval (getn s i)) false true s i) as (->&_). reflexivity. }
+    { intros _ _. destruct (log_read_other_fields c i (sval (getn s i)) false true s i) as (->&_). reflexivity. }
     intros w Hw0. exists [(i, sval (getn s i), false)]. split.
     { apply log_read_rlog_who; auto. }
     intros rest. apply Hlv. reflexivity.
@@ -91,8 +143,8 @@ Lemma read_der U R i e : decl_of p i = DDer e -> RSpec i R ->
   forall m c s stk t s' v, i < t -> CtxDep p c i -> Inv stk t s -> ctx_ok stk c -> TopOK c s ->
   node_read p U R m c i s = (s', v) ->
   Inv stk t s' /\ TopOK c s' /\ PullRel (S i) stk (fst c) s s' /\
-  (memob i = true -> st (getn s' i) = Clean /\ cache (getn s' i) = Some v) /\
-  (sigb i = true -> v = sval (getn s' i)) /\
+  (memob i = true -> dead s i = false -> st (getn s' i) = Clean /\ cache (getn s' i) = Some v) /\
+  (sigb i = true -> dead s i = false -> v = sval (getn s' i)) /\
   Growth c s s' (fun D => forall rest, rlvl p (S i) m (snd c) i (D ++ rest) = Some (v, rest)).
 Proof.
   intros Hd HR m c s stk t s' v Hit Hcd I C T Hr. unfold node_read in Hr. rewrite Hd in Hr.
